@@ -286,12 +286,24 @@ Inductive tree := Node (tab : table) (subs : list (option tree)).
 Definition tab_of (t : tree) : table := match t with Node T _ => T end.
 Definition subs_of (t : tree) : list (option tree) := match t with Node _ s => s end.
 
-(* SNIP: while( *msg && *msg!='/') ++msg; msg = *msg ? msg+1 : msg; *)
+(* one round of SNIP: while( *msg && *msg!='/') ++msg; msg = *msg ? msg+1 : msg; *)
 Fixpoint snip (m : str) : str :=
   match m with
   | [] => []
   | c :: t => if c =? 47 then t else snip t
   end.
+
+(* SNIP after the commit "fix: the recursion callbacks skipped one component ...":
+   as many components as the matched port's name has (the '/' in front of
+   its ':'), at least one *)
+Fixpoint count_slash (name : str) : nat :=
+  match name with
+  | [] => O
+  | c :: t => if c =? 58 then O else if c =? 47 then S (count_slash t) else count_slash t
+  end.
+Fixpoint snipn (k : nat) (m : str) : str :=
+  match k with O => m | S k' => snipn k' (snip m) end.
+Definition snipk (name m : str) : str := snipn (Nat.max 1 (count_slash name)) m.
 
 (* rBOILS_BEGIN: skip to the first digit, atoi *)
 Fixpoint first_number (m : str) : Z :=
@@ -320,7 +332,7 @@ Fixpoint dispatch_f (fuel : nat) (t : tree) (m args : str) (base : bool) (st : d
         | Some (Some sub) =>
             let name := match nth_error (t_ports T) (Z.to_nat i) with Some (n, _) => n | None => [] end in
             let n := if mem 35 name then first_number msg else 0 in
-            dispatch_f f sub (snip msg) args false (set_obj d1 (child_obj (obj d1) (t_id T) i n))
+            dispatch_f f sub (snipk name msg) args false (set_obj d1 (child_obj (obj d1) (t_id T) i n))
         | _ => d1
         end in
       let dh := fun (msg : str) (d : dstate) => add_log d (EvDefault (t_id T) msg (obj d) (loc d)) in
